@@ -48,6 +48,9 @@ func addStats(sh *core.Shard, s *Sim) {
 	for _, n := range s.Nodes {
 		if n.Rec != nil {
 			ev += n.Rec.Events
+			for k, v := range n.Rec.Kinds {
+				sh.Count("watcher_"+k+"_events", v)
+			}
 		}
 	}
 	sh.Count("watcher_events", ev)
